@@ -1,0 +1,36 @@
+//go:build verif
+
+// Machine-checked specification of glob matching (comment-only file; read by
+// /verif/bin/hopvc).
+
+package glob
+
+// globR(P, po, S, so, i, j): the first i pattern bytes match the first j input
+// bytes, where each '*' (42) stands for any, possibly empty, string.  This is
+// the property statement in recursive form.
+//@ spec rec globR(P bytearr, po int, S bytearr, so int, i int, j int) bool =
+//@     i <= 0 ? j == 0 :
+//@     (P[po+i-1] == 42 ? (globR(P, po, S, so, i-1, j) || (j > 0 && globR(P, po, S, so, i, j-1)))
+//@                      : (j > 0 && S[so+j-1] == P[po+i-1] && globR(P, po, S, so, i-1, j-1)))
+
+//@ func Glob(pattern string, input string, opts []Option) (result bool)
+//@   property C20
+//@   let P = arr(pattern)
+//@   let po = off(pattern)
+//@   let S = arr(input)
+//@   let so = off(input)
+//@   ensures result <==> globR(P, po, S, so, len(pattern), len(input))
+//@   loop 2
+//@     invariant 0 <= i && i <= len(pattern) && len(reach) == len(input)+1
+//@     invariant forall k int :: 0 <= k && k <= len(input) ==> (reach[k] <==> globR(P, po, S, so, i, k))
+//@     decreases len(pattern) - i
+//@   loop 3
+//@     invariant 1 <= j && j <= len(input)+1 && 0 <= i && i < len(pattern) && pattern[i] == 42 && len(reach) == len(input)+1
+//@     invariant forall k int :: 0 <= k && k < j ==> (reach[k] <==> globR(P, po, S, so, i+1, k))
+//@     invariant forall k int :: j <= k && k <= len(input) ==> (reach[k] <==> globR(P, po, S, so, i, k))
+//@     decreases len(input) + 1 - j
+//@   loop 4
+//@     invariant 0 <= j && j <= len(input) && 0 <= i && i < len(pattern) && pattern[i] != 42 && len(reach) == len(input)+1
+//@     invariant forall k int :: j < k && k <= len(input) ==> (reach[k] <==> globR(P, po, S, so, i+1, k))
+//@     invariant forall k int :: 0 <= k && k <= j ==> (reach[k] <==> globR(P, po, S, so, i, k))
+//@     decreases j
